@@ -105,6 +105,18 @@ func FindGlobalStores(pkgs []*packages.Package) []GlobalStore {
 					if IsBuiltinCall(info, x, "delete") && len(x.Args) == 2 {
 						record(x.Args[0], x.Pos())
 					}
+					// storing methods of the synchronised containers (a sync.Map is safe to share, and
+					// shared it is: what one run stores the next one finds)
+					if se, ok := ast.Unparen(x.Fun).(*ast.SelectorExpr); ok {
+						if fn := Callee(info, x); fn != nil && fn.Pkg() != nil && (fn.Pkg().Path() == "sync" || fn.Pkg().Path() == "sync/atomic") {
+							switch fn.Name() {
+							case "Store", "LoadOrStore", "LoadAndDelete", "Delete", "Swap", "CompareAndSwap", "CompareAndDelete", "Add", "Clear":
+								if root, _ := globalRoot(info, se.X); root != nil {
+									out = append(out, GlobalStore{p, fd, name, root, types.ExprString(se.X), x.Pos(), "method " + fn.Name()})
+								}
+							}
+						}
+					}
 				}
 				return true
 			})
